@@ -1279,6 +1279,84 @@ theorem roundRat_int_small (n : Int) (h : n.natAbs ≤ 2 ^ 53) :
 theorem roundRat_ok_fin {num : Int} {den : Nat} {w : UInt64} (h : roundRat num den = .ok w) :
     ∃ z, decode w = .fin z := ⟨_, roundRat_decode h⟩
 
+/-! ## `floatOfInt` and `divBits` in terms of `roundRat` -/
+
+theorem floatOfInt_eq (i : Int) :
+    floatOfInt i = match roundRat i 1 with | .ok w => some w | _ => none := by
+  unfold floatOfInt roundRat
+  rw [if_neg Nat.one_ne_zero]
+  generalize finish (decide (i < 0)) (roundMag i.natAbs 1) = r
+  cases r <;> rfl
+
+theorem floatOfInt_some {i : Int} {w : UInt64} : floatOfInt i = some w ↔ roundRat i 1 = .ok w := by
+  rw [floatOfInt_eq]
+  cases roundRat i 1 <;> simp
+
+/-- `float(i)` is exact up to `2^53` -/
+theorem floatOfInt_small (i : Int) (h : i.natAbs ≤ 2 ^ 53) :
+    ∃ w, floatOfInt i = some w ∧ decode w = .fin (i * scale) := by
+  obtain ⟨w, h1, h2⟩ := roundRat_int_small i h
+  exact ⟨w, floatOfInt_some.mpr h1, h2⟩
+
+/-- the value of `float(i)` in general: the signed rounding of `i / 1` -/
+theorem floatOfInt_decode {i : Int} {w : UInt64} (h : floatOfInt i = some w) : decode w = .fin (sval i 1) :=
+  roundRat_decode (floatOfInt_some.mp h)
+
+theorem roundRat_zero (den : Nat) (hd : 0 < den) : roundRat 0 den = .ok 0 := by
+  have h := roundRat_of_rep 0 den hd 0 ⟨0, 0, by decide, by decide, by simp⟩ (by simp)
+  have e : encodeScaled (decide ((0 : Int) < 0)) 0 = 0 := by decide
+  rw [e] at h; exact h.1
+
+/-- one IEEE division by a positive finite double: the exact quotient of the two exact values, rounded once
+    (overflow = the infinity) -/
+theorem divBits_pos (f g : UInt64) (a b : Int) (hf : decode f = .fin a) (hg : decode g = .fin b) (hb : 0 < b) :
+    decode (divBits f g) = (roundRat a b.toNat).ext := by
+  have hbn : b.natAbs = b.toNat := by omega
+  have hbpos : 0 < b.toNat := by omega
+  have hsg : signBit g = false := by
+    rw [signBit_decode g b hg (by omega)]; simp; omega
+  unfold divBits
+  simp only [hf, hg, hsg]
+  rw [if_neg (by omega)]
+  by_cases ha : a = 0
+  · subst ha
+    rw [if_pos rfl, roundRat_zero _ hbpos]
+    cases signBit f <;> decide
+  · rw [if_neg ha]
+    have hsf : signBit f = decide (a < 0) := signBit_decode f a hf ha
+    have hneg : (signBit f != false) = decide (a < 0) := by rw [hsf]; cases decide (a < 0) <;> rfl
+    rw [hneg, hbn]
+    have harg : (if decide (a < 0) = true then -(a.natAbs : Int) else (a.natAbs : Int)) = a := by
+      by_cases h : a < 0
+      · rw [decide_eq_true h, if_pos rfl]; omega
+      · rw [decide_eq_false h]; simp only [Bool.false_eq_true, if_false]; omega
+    rw [harg]
+    cases hr : roundRat a b.toNat with
+    | ok w => rfl
+    | overflow neg =>
+      have hs := roundRat_overflow_sign hr
+      rw [hs]
+      by_cases h : a < 0 <;> simp [h, Rounded.ext] <;> decide
+    | zeroDen => exact absurd hr (roundRat_total _ _ hbpos)
+
+/-- ... bit for bit when the quotient does not overflow and the dividend is not zero -/
+theorem divBits_pos_bits (f g : UInt64) (a b : Int) (hf : decode f = .fin a) (hg : decode g = .fin b) (hb : 0 < b)
+    (ha : a ≠ 0) (w : UInt64) (hr : roundRat a b.toNat = .ok w) : divBits f g = w := by
+  have hbn : b.natAbs = b.toNat := by omega
+  have hsg : signBit g = false := by
+    rw [signBit_decode g b hg (by omega)]; simp; omega
+  unfold divBits
+  simp only [hf, hg, hsg]
+  rw [if_neg (by omega), if_neg ha]
+  have hsf : signBit f = decide (a < 0) := signBit_decode f a hf ha
+  have hneg : (signBit f != false) = decide (a < 0) := by rw [hsf]; cases decide (a < 0) <;> rfl
+  rw [hneg, hbn]
+  have harg : (if decide (a < 0) = true then -(a.natAbs : Int) else (a.natAbs : Int)) = a := by
+    by_cases h : a < 0
+    · rw [decide_eq_true h, if_pos rfl]; omega
+    · rw [decide_eq_false h]; simp only [Bool.false_eq_true, if_false]; omega
+  rw [harg, hr]
+
 /-! ## tests (examples only; nothing depends on them): 195 inputs against CPython's `int / int`
 (boundary cases: powers of two +-1, halfway cases, subnormals, the overflow threshold, decimals, random big rationals),
 generated once by a Python script and checked by kernel evaluation -/
